@@ -18,6 +18,28 @@ type Shadow struct {
 	twin *tensor.Dense
 	dt   tensor.Dtype
 	name string
+	// abstract tensor: only its (possibly symbolic) shape exists
+	abs      bool
+	absShape []*smt.Term
+}
+
+func (c *Ctx) absMethod(s *Shadow, name string) Value {
+	switch name {
+	case "Shape":
+		b := &idArr{ids: make([]int64, len(s.absShape)), sort: smt.BV(64)}
+		for i, t := range s.absShape {
+			b.ids[i] = t.ID
+		}
+		if len(s.absShape) == 0 {
+			return SliceV{B: b}
+		}
+		return SliceV{B: b, Len: len(s.absShape), Cap: len(s.absShape)}
+	case "Dtype":
+		return DtypeV{Idx: dtypeIndex(s.dt)}
+	case "Dims":
+		return c.St.BVC(64, uint64(len(s.absShape)))
+	}
+	panic(c.abort("abstract (shape-only) tensor %s: call of %s touches more than its shape", s.name, name))
 }
 
 type IterV struct {
